@@ -50,7 +50,13 @@ func roundsOf(ts *terms, log []served, bpr int) (msgs []string, refusedAfter boo
 				} else {
 					var bs []int
 					for _, b := range g.blocks {
-						bs = append(bs, ts.ofBlock(b))
+						x := ts.ofBlock(b)
+						if x >= variantBase && x < garbageBase {
+							// a body variant under the id of another block would be stored by AddBlocks: the
+							// id-keyed model does not represent that (Net/Sync.v, checks/C11.json): monitors only
+							ts.variantStored = true
+						}
+						bs = append(bs, x)
 					}
 					groups = append(groups, "CBlocks "+nl(bs))
 				}
@@ -166,21 +172,40 @@ func project(s Scen, t *chaingen.Tree, ts *terms, atk *attack, v0 *chaingen.Node
 		return 0
 	}
 	subB := subnetIDs(s.Slot, 1)
+	// Ban calls so far, normalised: in a round of several requests the worker that validates a later request and
+	// the goroutine that submits an earlier one run concurrently, and each may ban the peer for its own finding;
+	// how many of these Ban calls happen before the round is cancelled is up to the scheduler. The model's round is
+	// sequential (first finding ends it), so a second Ban of the same peer within one phase, and the subnet ban
+	// its strike causes, are not compared (counted as an observation instead).
+	var cumBans []int
+	var cumSub []string
+	seenCalls := 0
+	dupBan := false
 	obs := func(p phase) (string, bool) {
 		if p.tip < 0 {
 			return "", false
 		}
-		var bans []int
-		var sbans []string
-		for _, b := range p.bans {
+		inPhase := map[int]bool{}
+		dupHere := false
+		for _, b := range p.bans[seenCalls:] {
 			if strings.Contains(b.Addr, "/") {
+				if dupHere {
+					continue
+				}
 				lvl := map[string]int{"/32": 0, "/24": 1, "/16": 2, "/8": 3}[b.Addr[strings.Index(b.Addr, "/"):]]
-				sbans = append(sbans, fmt.Sprintf("(%d, %d)", lvl, subB[lvl]))
+				cumSub = append(cumSub, fmt.Sprintf("(%d, %d)", lvl, subB[lvl]))
 				continue
 			}
-			bans = append(bans, peerOfIP(b.Addr))
+			q := peerOfIP(b.Addr)
+			if inPhase[q] {
+				dupHere, dupBan = true, true
+				continue
+			}
+			inPhase[q] = true
+			cumBans = append(cumBans, q)
 		}
-		return fmt.Sprintf("(%d, %s, [%s])", p.tip, nl(bans), strings.Join(sbans, "; ")), true
+		seenCalls = len(p.bans)
+		return fmt.Sprintf("(%d, %s, [%s])", p.tip, nl(cumBans), strings.Join(cumSub, "; ")), true
 	}
 	var phs []string
 	llog := atk.l.Log()
@@ -238,6 +263,12 @@ func project(s Scen, t *chaingen.Tree, ts *terms, atk *attack, v0 *chaingen.Node
 		}
 		subs = append(subs, fmt.Sprintf("(%v, %s, %v)", c.Kind == "addv", nl(l), c.Err != ""))
 	}
+	if ts.variantStored || (dupBan && s.Repeat) {
+		return ""
+	}
+	if dupBan {
+		atk.note = "double-ban-in-one-round"
+	}
 	var init []int
 	for _, x := range t.Path(v0) {
 		init = append(init, x.Idx)
@@ -285,6 +316,11 @@ func catalogue() []variantSpec {
 		vs = append(vs, variantSpec{"relay-header", f, any6, 0, false})
 	}
 	for _, f := range relayOutlineKinds {
+		if f == "side-known" {
+			// the fork must have been stored by AddBlocks (header-derived states): below the require height
+			vs = append(vs, variantSpec{"relay-outline", f, []int{4, 1}, -1, false}, variantSpec{"relay-outline", f, []int{1, 4}, -1, false})
+			continue
+		}
 		vs = append(vs, variantSpec{"relay-outline", f, []int{2, 5, 1, 4}, 0, false})
 	}
 	for _, f := range relayTxnKinds {
@@ -381,6 +417,25 @@ func genOne(c *hx.Ctx, v variantSpec, i int) (Scen, bool) {
 							continue
 						}
 						if strings.HasPrefix(v.field, "missing") && len(ch.Block.Transactions)+len(ch.Block.V2Transactions()) == 0 {
+							continue
+						}
+					}
+					if v.field == "side-known" {
+						ok := false
+						for _, n := range t.Nodes {
+							if n.ChainValid() && n.Block.V2 != nil && n.Parent != nil && n.Parent.Parent != nil && !mgrsim.Heavier(n, vn) && n != vn && n.Height < req {
+								on := false
+								for x := vn; x != nil; x = x.Parent {
+									if x == n || x == n.Parent {
+										on = true
+									}
+								}
+								if !on {
+									ok = true
+								}
+							}
+						}
+						if !ok {
 							continue
 						}
 					}
